@@ -336,8 +336,9 @@ class C15(Monitor):
                 if pos_diff(A["pos"], B["pos"]) > TOL or A["abs_xyz"] != B["abs_xyz"] or A["unit"] != B["unit"]:
                     v.append(viol(tr, r, "cleanup-does-not-resynchronise", "printer %r abs=%s unit=%s, file %r abs=%s unit=%s"
                                   % (A["pos"], A["abs_xyz"], A["unit"], B["pos"], B["abs_xyz"], B["unit"])))
-                if hs["pending"] == [] and any(True for _ in [0]):
-                    pass
+                if abs(A["e"] - B["e"]) > 1e-9 * (1.0 + abs(A["e"]) + abs(B["e"])):
+                    v.append(viol(tr, r, "cleanup-does-not-resynchronise-extruder", "after the cleanup the printer's E is %r, the file "
+                                  "assumes %r" % (A["e"], B["e"])))
                 if tr.steps[r["idx"] - 1].get("hs", {}).get("pending"):
                     nontrivial = True
             else:
